@@ -12,6 +12,10 @@
                                           (solution.py:666-675, 700-709, 762-788)      → `parseBenchmarkId`, `parseVehicleId`,
                                                                                           `readSolutionIds`
 
+    * keyword construction with defaults (`Kw.fill`), attribute histories (`Op`, `applyOp`, `runOps`; the `map_name` /
+      `country_id` setters scenario.py:476-497), `PlanningProblemSolution` guards and setters (solution.py:343-435 →
+      `Pps.check`, `Pps.apply`), the Solution's dict and its history (solution.py:499-505 → `solutionPps`, `SolState`, `stepSol`)
+
   Strings are `List Char`; numbers are printed / read digit by digit (`natToDigits`, `digitsToNat`), so the
   theorems in CRProps/C13.lean speak about the real strings, not about opaque tokens.
   The ISO-3166 alpha-3 table (`iso3166.countries_by_alpha3`) is a parameter `cs : List Str`.
@@ -380,5 +384,172 @@ def readSolutionIds (cs : List Str) (s : Str) (n : Nat) : Res (List (VModel × V
     match readPps n vids cids with
     | .error e => .error e
     | .ok pps => .ok (pps, i)
+
+/-! ## keyword construction: every argument given or left at its default (scenario.py:367-377) -/
+
+/-- default of `map_name` (scenario.py:371) -/
+def defaultName : Str := ['T', 'e', 's', 't']
+
+/-- `ScenarioID(**kw)`: outer `none` = argument omitted (the signature's default applies); for the arguments that
+    accept `None`, `some none` (`some Pred.none`) = an explicit `None`. -/
+structure Kw where
+  coop : Option Bool := none
+  country : Option (Option Str) := none
+  mapName : Option Str := none
+  mapId : Option Int := none
+  config : Option (Option Int) := none
+  beh : Option (Option Str) := none
+  pred : Option Pred := none
+  version : Option Str := none
+  deriving DecidableEq, Repr, Inhabited
+
+/-- the signature's defaults: `cooperative=False, country_id="ZAM", map_name="Test", map_id=1, configuration_id=None,
+    obstacle_behavior=None, prediction_id=None, scenario_version=SCENARIO_VERSION` -/
+def Kw.fill (k : Kw) : Raw :=
+  { coop := k.coop.getD false, country := k.country.getD (some ZAM), mapName := k.mapName.getD defaultName,
+    mapId := k.mapId.getD 1, config := k.config.getD none, beh := k.beh.getD none, pred := k.pred.getD .none,
+    version := k.version.getD defaultVersion }
+
+/-! ## attribute histories: fields re-assigned after construction (plain attributes and the two property setters) -/
+
+inductive Op where
+  | coop (b : Bool) | country (c : Option Str) | mapName (s : Str) | mapId (n : Int) | config (c : Option Int)
+  | beh (b : Option Str) | pred (p : Pred) | version (v : Str)
+  deriving DecidableEq, Repr, Inhabited
+
+/-- `setattr(id, field, value)`: six plain attributes take any value unchecked; `map_name` is cleaned by its setter
+    (scenario.py:480-484); `country_id` is validated by its setter and raises `ValueError` (scenario.py:490-497). -/
+def applyOp (cs : List Str) (i : Id) : Op → Res Id
+  | .coop b => .ok { i with coop := b }
+  | .country c =>
+    match setCountry cs c with
+    | .ok c' => .ok { i with country := c' }
+    | .error e => .error e
+  | .mapName s => .ok { i with mapName := s.filter Char.isAlphanum }
+  | .mapId n => .ok { i with mapId := n }
+  | .config c => .ok { i with config := c }
+  | .beh b => .ok { i with beh := b }
+  | .pred p => .ok { i with pred := p }
+  | .version v => .ok { i with version := v }
+
+/-- a history of assignments; a failing one (the country setter raising) leaves the object as it was -/
+def runOps (cs : List Str) : Id → List Op → Id
+  | i, [] => i
+  | i, op :: t =>
+    match applyOp cs i op with
+    | .ok j => runOps cs j t
+    | .error _ => runOps cs i t
+
+/-- the attribute values of an id, read as constructor arguments -/
+def Id.toRaw (i : Id) : Raw :=
+  { coop := i.coop, country := some i.country, mapName := i.mapName, mapId := i.mapId, config := i.config,
+    beh := i.beh, pred := i.pred, version := i.version }
+
+/-! ## planning problem solutions and their setters (solution.py:343-468), the Solution's dict (solution.py:499-505) -/
+
+/-- kind of the trajectory a `PlanningProblemSolution` holds (`TrajectoryType`): input vector, PM input vector, or the
+    state trajectory of a vehicle model -/
+inductive Traj where | input | pmInput | state (m : VModel)
+  deriving DecidableEq, Repr, Inhabited
+
+/-- `TrajectoryType.valid_vehicle_model` (solution.py:315-328) -/
+def Traj.validFor : Traj → VModel → Bool
+  | .input, m => m = .KS || m = .ST || m = .MB
+  | .pmInput, m => m = .PM
+  | .state x, m => x = m
+
+/-- `SupportedCostFunctions` (solution.py:331-340) -/
+def supportedCosts : VModel → List Cost
+  | .PM => [.JB1, .WX1, .MW1]
+  | _ => Cost.all
+
+structure Pps where
+  pid : Int
+  model : VModel
+  vtype : VType
+  cost : Cost
+  traj : Traj
+  deriving DecidableEq, Repr, Inhabited
+
+/-- `PlanningProblemSolution.__init__` guards (solution.py:369-370); `SolutionException` is class `other` -/
+def Pps.check (p : Pps) : Res Pps :=
+  if !p.traj.validFor p.model then .error .other else
+  if !(supportedCosts p.model).contains p.cost then .error .other else .ok p
+
+inductive POp where | model (m : VModel) | vtype (t : VType) | cost (c : Cost) | traj (t : Traj)
+  deriving DecidableEq, Repr, Inhabited
+
+/-- the setters `vehicle_model` (solution.py:407-412), `cost_function` (:419-422), `trajectory` (:429-435) and the plain
+    attribute `vehicle_type`; a rejected value raises and leaves the object unchanged -/
+def Pps.apply (p : Pps) : POp → Res Pps
+  | .model m => Pps.check { p with model := m }
+  | .vtype t => .ok { p with vtype := t }
+  | .cost c => Pps.check { p with cost := c }
+  | .traj t => if t.validFor p.model then .ok { p with traj := t } else .error .other
+
+/-- `{s.planning_problem_id: s for s in l}`: a repeated key keeps its first position and takes the last value -/
+def insertPps (d : List Pps) (p : Pps) : List Pps :=
+  if d.any (fun q => q.pid = p.pid) then d.map (fun q => if q.pid = p.pid then p else q) else d ++ [p]
+
+/-- `Solution.planning_problem_solutions` after the setter was given `l` -/
+def solutionPps (l : List Pps) : List Pps := l.foldl insertPps []
+
+/-- `Solution.benchmark_id` from the solution's current planning problem solutions and scenario id -/
+def solutionBenchmarkId (l : List Pps) (i : Id) : Str :=
+  benchmarkId ((solutionPps l).map fun p => (p.model, p.vtype)) ((solutionPps l).map Pps.cost) i
+
+/-! ## a Solution with a history (aliasing: the Solution's dict holds the client's objects) -/
+
+/-- `objs`: the `PlanningProblemSolution` objects the client created (addressed by position);
+    `held`: the Solution's dict as positions into `objs`, in dict order (keyed by the planning problem id each
+    object had when the list was assigned); `sid`: the `ScenarioID` object the Solution refers to. -/
+structure SolState where
+  objs : List Pps
+  held : List Nat
+  sid : Id
+  deriving Repr, Inhabited
+
+def pidAt (objs : List Pps) (j : Nat) : Int := (objs.getD j default).pid
+
+/-- one step of `{s.planning_problem_id: s for s in l}` on positions -/
+def insertIdx (objs : List Pps) (d : List Nat) (i : Nat) : List Nat :=
+  if d.any (fun j => pidAt objs j = pidAt objs i) then d.map (fun j => if pidAt objs j = pidAt objs i then i else j)
+  else d ++ [i]
+
+inductive SOp where
+  | pps (idx : Nat) (op : POp)        -- a setter of one of the client's objects
+  | setList (idxs : List Nat)         -- `solution.planning_problem_solutions = [objs[i] for i in idxs]`
+  | same                              -- `solution.planning_problem_solutions = solution.planning_problem_solutions`
+  | rev                               -- … = the reversed getter result
+  | sid (i : Id)                      -- `solution.scenario_id = <another id>`
+  | sidOp (op : Op)                   -- `setattr(solution.scenario_id, …)` in place
+  | query                             -- `solution.benchmark_id` / `vehicle_ids` / … (read only)
+  deriving Repr, Inhabited
+
+/-- one operation; `none` = the operation raised and left everything as it was -/
+def stepSol (cs : List Str) (s : SolState) : SOp → Option SolState
+  | .pps idx op =>
+    match s.objs[idx]? with
+    | none => none
+    | some p =>
+      match p.apply op with
+      | .ok q => some { s with objs := s.objs.set idx q }
+      | .error _ => none
+  | .setList idxs => some { s with held := idxs.foldl (insertIdx s.objs) [] }
+  | .same => some { s with held := s.held.foldl (insertIdx s.objs) [] }
+  | .rev => some { s with held := s.held.reverse.foldl (insertIdx s.objs) [] }
+  | .sid i => some { s with sid := i }
+  | .sidOp op =>
+    match applyOp cs s.sid op with
+    | .ok j => some { s with sid := j }
+    | .error _ => none
+  | .query => some s
+
+/-- the planning problem solutions the Solution currently holds -/
+def SolState.pps (s : SolState) : List Pps := s.held.map fun j => s.objs.getD j default
+
+/-- `Solution.benchmark_id` in this state -/
+def SolState.benchmarkId (s : SolState) : Str :=
+  CR.BenchId.benchmarkId (s.pps.map fun p => (p.model, p.vtype)) (s.pps.map Pps.cost) s.sid
 
 end CR.BenchId
